@@ -183,6 +183,8 @@ def run(rep, tier):
     M = 60 if quick else 1500
     other_paths(rep, svh, rng, gates, names, M, NS)
     folded_reference_samples(rep, svh, rng, gates, names, 80 if quick else 1500)
+    from checks import gdecomp
+    gdecomp.run(rep, svh, rng, 1500 if quick else 40000)
     svh.close()
     rep.cov['rule'] = ('random noiseless circuits over every unitary gate/alias, M/MX/MY/MR*/R*, MXX/MYY/MZZ, MPP, SPP, MPAD, feedback, '
                        'sweep, REPEAT, `!`, repeated/overlapping targets, indices straddling 64/128/256; probes after random '
